@@ -5,7 +5,8 @@ import math
 from .model import load_model
 from .harness import partition, valuations
 from . import spec
-from .evalengine import depth1_instances, depth2_instances, pmap, param_class, region_class
+from .evalengine import (depth1_instances, depth2_instances, constant_child_instances, pmap, param_class,
+                         region_class)
 from .derivengine import deriv_group, ROUTES
 
 E = math.e
@@ -83,6 +84,7 @@ def derivative_cases(model, tier, include_undefined_children, routes):
     inst1, unknown = depth1_instances(model, tier)
     inst = [(t, l, False) for (t, l) in inst1 if t[0] != "Constant" or t[1] in (0, 2.0)]
     inst += [(t, l, False) for (t, l) in chain_instances(model, tier)]
+    inst += [(t, l, False) for (t, l) in constant_child_instances(model, tier)]
     if include_undefined_children:
         inst += [(t, l, True) for (t, l) in depth2_instances(model, tier)]
     cases = []
